@@ -7,6 +7,19 @@ import (
 	"golang.org/x/tools/go/ssa"
 )
 
+// contractPkg: the Go package a contract belongs to (iface contracts carry "pkg.Iface").
+func contractPkg(ct *FuncContract) string {
+	if ct == nil {
+		return ""
+	}
+	if ct.Kind == "iface" {
+		if i := strings.LastIndex(ct.Pkg, "."); i > strings.LastIndex(ct.Pkg, "/") {
+			return ct.Pkg[:i]
+		}
+	}
+	return ct.Pkg
+}
+
 type staticTarget struct {
 	sort Sort
 	dyn  int
@@ -123,7 +136,7 @@ func (vc *VC) contractLoopTargets(cc *ssa.CallCommon) ([]staticTarget, []string,
 			return nil, nil, false
 		case *ESel:
 			if c, isC := x.X.(*ECall); isC && c.Fn == "any" && len(c.Args) == 1 {
-				ev := &Eval{vc: vc, env: map[string]EVal{}, bound: map[string]EVal{}}
+				ev := &Eval{vc: vc, env: map[string]EVal{}, bound: map[string]EVal{}, pkgPath: contractPkg(ct)}
 				T, err := ev.resolveTypeName(c.Args[0])
 				if err != nil {
 					return nil, nil, false
